@@ -297,14 +297,16 @@ class IOData:
                 self._charge = self._atcorenums.sum() - self.nelec
             self._atcorenums = None
         else:
+            # Assign first: when the shape validator rejects the new array,
+            # nothing else has been changed yet.
+            self._atcorenums = np.asarray(atcorenums, dtype=float)
             if self._charge is not None:
                 # _charge is treated as the dependent one, while atcorenums and
                 # nelec are treated as independent.
                 if self._nelec is None:
                     # Switch to storing _nelec.
-                    self._nelec = atcorenums.sum() - self._charge
+                    self._nelec = self._atcorenums.sum() - self._charge
                 self._charge = None
-            self._atcorenums = np.asarray(atcorenums, dtype=float)
 
     @property
     def charge(self) -> float:
